@@ -167,7 +167,7 @@ CHECKS = {
                 "test of yychar_): for every translated first byte and EVERY input that follows it (any bytes, any length; '??' excluded as translation phase 1), the lexer assigns the kind of the LONGEST "
                 "row of the 6.4.6 table (digraphs included) that is a prefix of the input, consumes exactly that row, and never calls yyinput() at the terminating NUL.  Proved by a kernel-evaluated sweep "
                 "over all continuations of up to 3 bytes over the alphabet the statements and the table mention, lifted to all inputs by a proved reduction (bytes outside the alphabet are indistinguishable, "
-                "no statement looks more than 3 bytes ahead, no row is longer than 4).  Everything else the property states — '.', '/', '%' (these cases peek at yytext_[1] or call sub-lexers), identifiers, "
+                "no statement looks more than 3 bytes ahead, no row is longer than 4).  Since the statements also cover tests of yytext_[1], isdigit and the hand-over to a sub-lexer, every punctuator of 6.4.6 except '/' and '/=' is inside the theorem ('.' followed by a digit excluded: a floating constant).  Everything else the property states — '/' and comments, identifiers, "
                 "every constant and literal form, comments and splices as separators, spelling, byte and UTF-16 extents, increasing extents, exactly one final EOF — is decided by correspondence with an "
                 "independently written C11 tokenizer (gen/reflex.py): exhaustively all ordered pairs of punctuators with no and with every separator (thorough: all triples), every punctuator against every "
                 "other token class, generated constants/literals over all bases, suffixes, exponents, prefixes and escapes, and random token sequences.",
